@@ -102,20 +102,25 @@ def make_region(rng):
                          forbid_subs=(delim,))
         if body.endswith('$') or (delim in (body + delim)[:-1]):
             body = body.replace('$', '')
+        if tag and tag.swapcase() != tag and rng.random() < 0.3:
+            # the same tag in another letter case is not the terminator
+            i = rng.randint(0, len(body))
+            body = body[:i] + ' $' + tag.swapcase() + '$ ' + body[i:]
         lefts = [l for l in LEFTS if not re.search(r'[\w"$]$', l)]
         return kind, delim + body + delim, T.Literal, lefts, RIGHTS
     if kind == 'ml':
         body = body_soup(rng, '', forbid_subs=('*/',))
-        if body.endswith('*'):
-            body += ' '
-        if body.startswith('/') and False:
-            pass
+        x = rng.random()
+        if x < 0.15:
+            body += '*' * rng.randint(1, 4)      # /* a **/ , /***/
+        elif x < 0.25:
+            body = '*' * rng.randint(1, 3) + body
+        elif x < 0.3:
+            body = '/' + body                    # /*/ x */
+        while '*/' in body:
+            body = body.replace('*/', '*')
         tt = T.Comment.Multiline.Hint if body.startswith('+') \
             else T.Comment.Multiline
-        # '/*/' : the opener's * must not be read as the closer's
-        if body.startswith('/'):
-            body = ' ' + body
-            tt = T.Comment.Multiline
         return kind, '/*' + body + '*/', tt, \
             [l for l in LEFTS if l != '||'], RIGHTS
     body = body_soup(rng, '\r\n')
